@@ -229,6 +229,12 @@ func (e *Engine) collectProbes(ctx *EvalCtx, c *Contract) []Probe {
 // ---------------------------------------------------------------- obligations and queries
 
 func (e *Engine) queryPrefix(st *State) string {
+	return e.queryPrefixOpt(st, false)
+}
+
+// queryPrefixOpt: with dropQuant, quantified assumptions are left out (used for satisfiability /
+// reachability sanity checks, where a quantifier makes the solvers answer `unknown`).
+func (e *Engine) queryPrefixOpt(st *State, dropQuant bool) string {
 	var b strings.Builder
 	b.WriteString(preamble)
 	for _, d := range e.reg.decls {
@@ -245,6 +251,9 @@ func (e *Engine) queryPrefix(st *State) string {
 		b.WriteString("(assert " + a + ")\n")
 	}
 	for _, p := range st.pc {
+		if dropQuant && (strings.Contains(p, "(forall ") || strings.Contains(p, "(exists ")) {
+			continue
+		}
 		b.WriteString("(assert " + p + ")\n")
 	}
 	return b.String()
@@ -301,6 +310,9 @@ func (e *Engine) axiomTexts() []string {
 }
 
 func (e *Engine) addObligation(st *State, fr *Frame, kind string, tags []string, clause, where, goal string, probes []Probe) *Obligation {
+	if tags == nil {
+		tags = []string{}
+	}
 	o := &Obligation{
 		Func: e.curFn.String(), Kind: kind, Tags: tags, Clause: clause, Where: where,
 		Trail: strings.Join(st.trail, " "), Expect: "unsat", Probes: probes,
@@ -320,7 +332,7 @@ func (e *Engine) addObligationExpectPath(st *State, fr *Frame, kind string, tags
 		Func: e.curFn.String(), Kind: kind, Tags: tags, Clause: clause, Where: where,
 		Trail: strings.Join(st.trail, " "), Expect: expect, Path: path,
 	}
-	o.Query = e.queryPrefix(st)
+	o.Query = e.queryPrefixOpt(st, true)
 	o.ID = fmt.Sprintf("%s/%s/%d", shortName(e.curFn.String()), kind, len(e.obls)+1)
 	e.obls = append(e.obls, o)
 	return o
